@@ -15,6 +15,7 @@ import (
 	"encoding/json"
 	"flag"
 	"fmt"
+	"hash/fnv"
 	"os"
 	"sort"
 	"strings"
@@ -197,7 +198,9 @@ func (w *world) post() map[string]any {
 		xrs = append(xrs, map[string]any{"id": w.idOf(x.GetName()), "cref": crefOf(x), "del": x.GetDeletionTimestamp() != nil,
 			"rv": x.GetResourceVersion(), "uid": string(x.GetUID())})
 	}
-	sort.Slice(xrs, func(i, j int) bool { return xrs[i].(map[string]any)["id"].(string) < xrs[j].(map[string]any)["id"].(string) })
+	sort.Slice(xrs, func(i, j int) bool {
+		return xrs[i].(map[string]any)["id"].(string) < xrs[j].(map[string]any)["id"].(string)
+	})
 	return map[string]any{"claim": cp, "xrs": xrs}
 }
 
@@ -431,6 +434,12 @@ func newWorld(tw *trace.Writer, cnt *counters, id string, init map[string]any, s
 	switch pre {
 	case "other":
 		x := newXR(pName, otherClaim)
+		// Half of the scenarios (by a hash of the scenario id): the other claim has the SAME name in a DIFFERENT namespace - still a
+		// different claim (added after the seeded change C06-m2, a guard that forgot the namespace, was missed).
+		if h := fnv.New32a(); func() bool { _, _ = h.Write([]byte(strings.SplitN(id, "/", 2)[0])); return h.Sum32()%2 == 0 }() {
+			x.SetLabels(map[string]string{"crossplane.io/claim-name": claimName, "crossplane.io/claim-namespace": "other-ns"})
+			_ = unstructured.SetNestedMap(x.Object, map[string]any{"apiVersion": claimGVK.GroupVersion().String(), "kind": claimGVK.Kind, "namespace": "other-ns", "name": claimName}, "spec", "claimRef")
+		}
 		if w.syncer == "SSA" {
 			must(envc.Patch(ctx, x, client.Apply, client.ForceOwnership, client.FieldOwner(claim.FieldOwnerXR)))
 		} else {
